@@ -105,6 +105,7 @@ func (r *Runner) DoIsolated(c Case, limit time.Duration) {
 
 // RunIsolated is the body of `mc isolated`: read a case from stdin, execute, print the reply.
 func RunIsolated() int {
+	exitWhenOrphaned()
 	b, _ := io.ReadAll(os.Stdin)
 	var req struct {
 		Type string          `json:"type"`
@@ -129,8 +130,23 @@ func RunIsolated() int {
 	return 0
 }
 
+// exitWhenOrphaned ends a worker (or isolated case) process whose parent has gone away - e.g. because the run was
+// interrupted from outside while this process was stuck in a case that never returns: nobody is left to stop it.
+func exitWhenOrphaned() {
+	parent := os.Getppid()
+	go func() {
+		for {
+			time.Sleep(2 * time.Second)
+			if os.Getppid() != parent {
+				os.Exit(3)
+			}
+		}
+	}()
+}
+
 // RunWorker is the body of `mc worker`.
 func RunWorker(chk *Check, r *Runner, statusPath string) int {
+	exitWhenOrphaned()
 	if statusPath != "" {
 		st, err := OpenStatus(statusPath, false)
 		if err == nil {
